@@ -79,9 +79,65 @@ def run(tier):
                 cmds += ["sumoff 0", "sumoff 1", "wrapreport"]
                 cases.append(cmds)
                 meta.append(("content", size, ending, variant, path))
+    # arbitrary bytes: valid programs with byte-level damage (every byte value except NUL, which a C string cannot carry; byte order
+    # marks and other prefixes an editor or a shell leaves behind; CR / FF / VT / 0x1a; damage at the very beginning, at line starts and at
+    # the very end) - the string entry point mostly REJECTS these, and so must the file entry points; where it accepts, the results agree
+    PREFIXES = [b"\xef\xbb\xbf", b"\xff\xfe", b"\xfe\xff", b"\xef\xbb", b"\xef", b"\r", b"\f", b"\v", b"\x1a", b"#!/usr/bin/asmline -r\n", b"\x7f", b" \t ", b"\xc2\xa0", b"\n\n", b"\r\n",
+                b"\xe2\x80\x8b", b"\x01", b"\x1b[0m", b"%include 'x'\n", b"BITS 64\n", b"\xef\xbb\xbf\xef\xbb\xbf"]
+    SUFFIXES = [b"\x1a", b"\r", b"\xff", b"\xef\xbb\xbf", b"\n\x1a", b"\f", b" \\", b"\\\n", b"\x04"]
+    nraw = 900 if not full else 30000
+    for k in range(nraw):
+        size = rnd.choice([rnd.randrange(0, 40), rnd.randrange(0, 300), PAGE - rnd.randrange(0, 8), 2 * PAGE + rnd.randrange(-4, 5), rnd.randrange(300, 9000)])
+        raw = content(size, rnd.choice(["nl", "nonl", "lastinstr", "lastret"]), rnd).encode("latin-1")
+        how = []
+        for _ in range(rnd.choice([1, 1, 1, 2, 3])):
+            m = rnd.randrange(6)
+            if m == 0:
+                pf = rnd.choice(PREFIXES)
+                raw = pf + raw
+                how.append("prefix:" + pf.hex())
+            elif m == 1:
+                sf = rnd.choice(SUFFIXES)
+                raw = raw + sf
+                how.append("suffix:" + sf.hex())
+            elif m == 2 and raw:
+                pos = rnd.choice([0, 1, 2, len(raw) - 1, rnd.randrange(len(raw))])
+                b = bytes([rnd.randrange(1, 256)])
+                raw = raw[:pos] + b + raw[pos:]
+                how.append("insert:%s@%d" % (b.hex(), pos))
+            elif m == 3 and raw:
+                pos = rnd.choice([0, len(raw) - 1, rnd.randrange(len(raw))])
+                b = bytes([rnd.randrange(1, 256)])
+                raw = raw[:pos] + b + raw[pos + 1:]
+                how.append("replace:%s@%d" % (b.hex(), pos))
+            elif m == 4 and b"\n" in raw:
+                # damage at the start of some line
+                starts = [i + 1 for i in range(len(raw)) if raw[i:i + 1] == b"\n"]
+                pos = rnd.choice(starts)
+                pf = rnd.choice(PREFIXES)
+                raw = raw[:pos] + pf + raw[pos:]
+                how.append("linestart:%s@%d" % (pf.hex(), pos))
+            else:
+                nl = rnd.choice([b"\r", b"\n\r", b"\r\r\n", b"\x0b", b"\x0c", b"\x85", b"\xe2\x80\xa8"])
+                raw = raw.replace(b"\n", nl, rnd.choice([1, 2, 1000]))
+                how.append("newline:" + nl.hex())
+        fid += 1
+        path = os.path.join(wd, "r%d.asm" % fid)
+        with open(path, "wb") as f:
+            f.write(raw)
+        variant = "file" if k % 2 else "filecnt"
+        c = rnd.choice([2, 5, 16, 64, 0])
+        cmds = ["wrap reset", "wrap guardfiles 1", "new 0 int", "new 1 int"]
+        if variant == "file":
+            cmds += ["file 0 %s" % path, "asm 1 %s" % common.hx(raw)]
+        else:
+            cmds += ["filecnt 0 %d %s" % (c, path), "cnt 1 %d %s" % (c, common.hx(raw))]
+        cmds += ["sumoff 0", "sumoff 1", "wrapreport"]
+        cases.append(cmds)
+        meta.append(("content", len(raw), "raw " + ",".join(how), variant, path))
     # several files one after the other on the SAME instance (longer, then shorter, then empty, line-aligned or not): what an
     # earlier file call left behind (a cached mapping, a stale tail) must not show in a later one
-    made = [(m[4], m[1]) for m in meta if m[0] == "content" and m[3] == "file"]
+    made = [(m[4], m[1]) for m in meta if m[0] == "content" and m[3] == "file" and not m[2].startswith("raw")]
     texts = {}
     for pth, _ in made:
         with open(pth, newline="") as f:
@@ -145,6 +201,8 @@ def run(tier):
             f, s, s0, s1 = recs[4].split(), recs[5].split(), recs[6].split(), recs[7].split()
             stats["guarded_mappings"] += int(recs[8].split("gmaps=")[1])
             stats["file_rc%s" % f[1]] = stats.get("file_rc%s" % f[1], 0) + 1
+            if b.startswith("raw"):
+                stats["raw_rc%s" % f[1]] = stats.get("raw_rc%s" % f[1], 0) + 1
             if f[1] != s[1]:
                 v.violation(case, "rc:file=%s,string=%s" % (f[1], s[1]), "file %s | string %s" % (recs[4], recs[5]))
             elif f[3] != s[3] or s0[1:] != s1[1:]:
@@ -203,7 +261,7 @@ def run(tier):
                 v.violation(case, "bin-file-content-differs", "file %s bytes vs %d" % (None if data is None else len(data) // 2, off))
             else:
                 v.distinct((kind, off))
-    v.cov["rule"] = ("file contents of EVERY size 0..64 and every size within +/-16 of 1, 2 and 3 pages x 6 endings (newline, none, inside a comment, inside an instruction, a complete instruction / ret as last line without newline; CRLF lines inside) x both file entry points, "
+    v.cov["rule"] = ("file contents of EVERY size 0..64 and every size within +/-16 of 1, 2 and 3 pages x 6 endings (newline, none, inside a comment, inside an instruction, a complete instruction / ret as last line without newline; CRLF lines inside) x both file entry points, plus valid programs with byte-level damage (byte order marks and other prefixes, any byte value 1..255 inserted / replaced at the beginning, the end, line starts or anywhere, odd line separators), "
                      "differentially against the string entry points on the same content (rc, offset, count, FNV of the code); ld --wrap mmap puts a PROT_NONE page right after every non-executable mapping the "
                      "library creates, so a missing terminator faults deterministically; missing / directory / ENOTDIR paths must fail and leave the instance usable; asm_create_bin_file at offsets 0,1,2,19,4095..4097,6000,20000 must equal [0,offset); sequences of 2-6 file calls of (mostly) decreasing size, ending with an empty file, on ONE instance, each step compared with the string entry point")
     v.cov["exhaustive"] = True
